@@ -38,6 +38,16 @@ pub(crate) struct StateDescriptor {
     prev_state: Option<CallResult>,
 }
 
+/// A call that has a result in (possibly adversarial) data must have resolvable arguments,
+/// otherwise this result doesn't belong to the call.
+fn try_get_argument_hash<'hash>(argument_hash: Option<&'hash Rc<str>>) -> Result<&'hash Rc<str>, UncatchableError> {
+    argument_hash.ok_or_else(|| UncatchableError::InstructionParametersMismatch {
+        param: "call argument_hash",
+        expected_value: "arguments of the call aren't resolved yet".to_owned(),
+        stored_value: "a result of the call".to_owned(),
+    })
+}
+
 /// This function looks at the existing call state, validates it,
 /// and returns Ok(true) if the call should be executed further.
 pub(super) fn handle_prev_state<'i>(
@@ -64,7 +74,7 @@ pub(super) fn handle_prev_state<'i>(
                 .map_err(UncatchableError::from)?;
 
             verifier::verify_call(
-                argument_hash.as_ref().unwrap(),
+                try_get_argument_hash(argument_hash)?,
                 tetraplet,
                 &service_result_aggregate.argument_hash,
                 &current_tetraplet,
@@ -91,7 +101,7 @@ pub(super) fn handle_prev_state<'i>(
                 Some(call_result) => {
                     update_state_with_service_result(
                         tetraplet.clone(),
-                        argument_hash.expect("Result for joinable error").clone(),
+                        try_get_argument_hash(argument_hash)?.clone(),
                         output,
                         call_result,
                         exec_ctx,
@@ -122,7 +132,7 @@ pub(super) fn handle_prev_state<'i>(
 
             populate_context_from_data(
                 value.clone(),
-                argument_hash.as_ref().unwrap(),
+                try_get_argument_hash(argument_hash)?,
                 tetraplet.clone(),
                 met_result.trace_pos,
                 met_result.source,
